@@ -461,14 +461,26 @@ def Covered (q : Query) (db : List (Series V)) : Prop :=
     of the reference evaluator, so the statement checker accepts them.
     Missing: GROUP BY host over several series, and all aggregate statements (call
     iterators, merge + re-aggregation, interval, fill, row join) — tied by correspondence only. -/
+theorem run_eq_eval_of_covered (A : Arith22 V F) (q : Query) (db : List (Series V)) (h : Covered q db) :
+    run A q db = eval A q db := by
+  obtain ⟨hraw, hs, hcase⟩ := h
+  rcases hcase with ⟨s, rfl⟩ | ⟨hnb, hdist⟩
+  · exact C22_raw_single A q s (hs s (by simp)) hraw
+  · exact C22_raw_merge A q db hs hraw hnb hdist
+
 theorem C22_holdsOn_partial (A : Arith22 V F) (q : Query) (db : List (Series V)) (h : Covered q db) :
     holdsOn A q db (run A q db) = true := by
-  obtain ⟨hraw, hs, hcase⟩ := h
-  have heq : run A q db = eval A q db := by
-    rcases hcase with ⟨s, rfl⟩ | ⟨hnb, hdist⟩
-    · exact C22_raw_single A q s (hs s (by simp)) hraw
-    · exact C22_raw_merge A q db hs hraw hnb hdist
-  rw [holdsOn, heq]
+  rw [holdsOn, run_eq_eval_of_covered A q db h]
+  exact resultEq_refl A _
+
+/-- the same for statements over sparse two-field series (WHERE on the second field, aux
+    column): the storage side is modelled as the projection `project`, so the covered class
+    carries over -/
+theorem C22_holdsOn2_partial (A : Arith22 V F) (q : Query2) (db : List (Series2 V))
+    (h : Covered q.q (db.map (project A q))) :
+    holdsOn2 A q db (run2 A q db) = true := by
+  unfold holdsOn2 run2 eval2
+  rw [run_eq_eval_of_covered A q.q _ h]
   exact resultEq_refl A _
 
 /-- the reference evaluator trivially satisfies its own statement (sanity) -/
